@@ -68,6 +68,10 @@ PROPS = {
 }
 
 
+# stages over real sockets and real time: an oracle failure is confirmed by a second run (see ./check)
+REAL_SOCKET_STREAMS = ("wire", "udpwire")
+
+
 def corpus_lines(stream, pid):
     """Minimised past failures and hand-written witnesses run first."""
     out = []
